@@ -1,16 +1,17 @@
 SPECIFICATION Spec
 CONSTANTS
-  D = 7
-  Mode = "pairs"
-  Width = 2
-  Foreigns = FALSE
+  D = 3
+  Mode = "families"
+  Width = 1
+  Foreigns = TRUE
   Wraps = FALSE
   WrapMax = 0
-  ForeignVals <- ForeignValsQuick
-  ForeignBase <- ForeignBaseQuick
+  ForeignVals <- ForeignValsAll
+  ForeignBase <- ForeignBaseAll
   WithAcc = FALSE
-  ExportMode = "verdict"
+  ExportMode = "errors"
 INVARIANT EmptyAccepts
 INVARIANT NoSurprises
 INVARIANT ExportInv
+PROPERTY C10Step
 CHECK_DEADLOCK FALSE
